@@ -44,6 +44,13 @@ type Case struct {
 	Groups     [][]H `json:"groups"` // outermost first
 	Route      []H   `json:"route"`
 	Action     *H    `json:"action"` // nil = no action set
+	// Method of the request (GET or HEAD; the route is registered for both).
+	Method string `json:"method,omitempty"`
+	// SiblingsBefore / SiblingsAfter register that many other routes (one own
+	// handler each) in the same innermost group before / after the route under
+	// test: their handlers must never show up in its chain.
+	SiblingsBefore int `json:"siblings_before,omitempty"`
+	SiblingsAfter  int `json:"siblings_after,omitempty"`
 }
 
 func (c Case) flat() []H {
@@ -159,6 +166,11 @@ func (m *interp) exec(i int, h *H) {
 func reference(c Case) (res result) {
 	m := &interp{hs: c.flat(), action: c.Action}
 	defer func() {
+		if c.Method == "HEAD" {
+			res.Body = "" // HEAD forwards no body bytes; everything else is the same
+		}
+	}()
+	defer func() {
 		if r := recover(); r != nil {
 			if _, ok := r.(chainPanic); !ok {
 				panic(r)
@@ -247,10 +259,19 @@ func real(c Case) (res result) {
 	for _, h := range c.Route {
 		rhs = append(rhs, mk(h))
 	}
+	sibling := func(k int) {
+		f.Any(fmt.Sprintf("/sib%d", k), func(ctx flamego.Context) { ev("enter %d", 1000+k); ev("exit %d", 1000+k) })
+	}
 	var register func(depth int)
 	register = func(depth int) {
 		if depth == len(ghs) {
-			f.Get("/r", rhs...)
+			for k := 0; k < c.SiblingsBefore; k++ {
+				sibling(k)
+			}
+			f.Any("/r", rhs...)
+			for k := 0; k < c.SiblingsAfter; k++ {
+				sibling(100 + k)
+			}
 			return
 		}
 		f.Group(fmt.Sprintf("/g%d", depth), func() { register(depth + 1) }, ghs[depth]...)
@@ -264,7 +285,11 @@ func real(c Case) (res result) {
 		path += fmt.Sprintf("/g%d", d)
 	}
 	path += "/r"
-	req := rt.NewRequest("GET", path, nil)
+	method := c.Method
+	if method == "" {
+		method = "GET"
+	}
+	req := rt.NewRequest(method, path, nil)
 	ctx, cf := gocontext.WithCancel(gocontext.Background())
 	cancel = cf
 	defer cf()
@@ -365,6 +390,12 @@ func checkCase(c Case) (out evid.Outcome) {
 			nested = true
 		}
 	}
+	if c.Method == "HEAD" {
+		out.Classes = append(out.Classes, "head")
+	}
+	if c.SiblingsBefore+c.SiblingsAfter > 0 && len(c.Groups) >= 2 {
+		out.Classes = append(out.Classes, "siblings-in-nested-group")
+	}
 	if nested && want.Status != 0 {
 		out.NonTrivial = true
 		out.Classes = append(out.Classes, "write-with-nesting")
@@ -462,7 +493,7 @@ func genCase(t *rapid.T) Case {
 	for i, n := 0, rapid.IntRange(0, 3).Draw(t, "nmw"); i < n; i++ {
 		c.Middleware = append(c.Middleware, genH(t))
 	}
-	for i, n := 0, rapid.IntRange(0, 2).Draw(t, "ngroups"); i < n; i++ {
+	for i, n := 0, rapid.IntRange(0, 3).Draw(t, "ngroups"); i < n; i++ {
 		var g []H
 		for j, k := 0, rapid.IntRange(0, 2).Draw(t, "ng"); j < k; j++ {
 			g = append(g, genH(t))
@@ -476,6 +507,9 @@ func genCase(t *rapid.T) Case {
 		h := genH(t)
 		c.Action = &h
 	}
+	c.Method = []string{"GET", "GET", "HEAD"}[rapid.IntRange(0, 2).Draw(t, "method")]
+	c.SiblingsBefore = rapid.IntRange(0, 2).Draw(t, "sibbefore")
+	c.SiblingsAfter = rapid.IntRange(0, 2).Draw(t, "sibafter")
 	return c
 }
 
